@@ -50,6 +50,9 @@ def gen_case(rng, coarse=False):
         lo, hi = BANDS[band]
         f0 = float(np.exp(rng.uniform(np.log(lo * 1.02), np.log(hi * 0.98))))
     ratio = float(rng.uniform(1.02, 1.45)) if not coarse else float(rng.uniform(1.5, 5.0))
+    if not coarse and rng.random() < 0.25:
+        # neighbouring samples right at the +-5 % band of criterion iv (1.05 above, 1/0.95 = 1.0526 for the sample below)
+        ratio = float(rng.choice([1.047, 1.0495, 1.0505, 1.0515, 1.0522, 1.0529, 1.055]))
     nlo, nhi = int(rng.integers(2, 30)), int(rng.integers(2, 30))
     f = f0 * ratio ** np.arange(-nlo, nhi + 1)
     p = nlo
